@@ -1,7 +1,12 @@
 package props
 
 import (
+	"bufio"
+	"bytes"
 	"fmt"
+	"io"
+	"os"
+	"strings"
 
 	"go.pennock.tech/tabular"
 	"go.pennock.tech/tabular/auto"
@@ -122,5 +127,86 @@ func setAlignsExactly(t tabular.Table, a []int) {
 			v = alignVals[a[n]]
 		}
 		t.Column(n).SetProperty(align.PropertyType, v)
+	}
+}
+
+// ---- destinations: RenderTo takes any io.Writer, and what it writes must not depend on the writer's dynamic type
+
+// destDir is where file-backed destinations are created; destSeq rotates the destination kind and is reset
+// from the case index at the start of a case, so that a case always sees the same kinds.
+var (
+	destDir string
+	destSeq int
+)
+
+type onlyWriter struct{ b *bytes.Buffer }
+
+func (w onlyWriter) Write(p []byte) (int, error) { return w.b.Write(p) }
+
+// richWriter offers every optional method a renderer might look for.
+type richWriter struct{ b bytes.Buffer }
+
+func (w *richWriter) Write(p []byte) (int, error)         { return w.b.Write(p) }
+func (w *richWriter) WriteString(s string) (int, error)   { return w.b.WriteString(s) }
+func (w *richWriter) WriteByte(c byte) error              { return w.b.WriteByte(c) }
+func (w *richWriter) WriteRune(r rune) (int, error)       { return w.b.WriteRune(r) }
+func (w *richWriter) ReadFrom(r io.Reader) (int64, error) { return w.b.ReadFrom(r) }
+
+var destKindNames = []string{"*bytes.Buffer", "*strings.Builder", "a type with only a Write method", "a type with Write, WriteString, WriteByte, WriteRune and ReadFrom", "*bufio.Writer of 16 bytes, flushed afterwards", "*io.PipeWriter", "*os.File (pipe)", "*os.File (regular file)"}
+
+// renderInto runs f with a healthy destination of the given kind and returns what arrived there.
+func renderInto(kind int, f func(w io.Writer) error) (string, error) {
+	switch kind % len(destKindNames) {
+	default:
+		var b bytes.Buffer
+		err := f(&b)
+		return b.String(), err
+	case 1:
+		var b strings.Builder
+		err := f(&b)
+		return b.String(), err
+	case 2:
+		var b bytes.Buffer
+		err := f(onlyWriter{&b})
+		return b.String(), err
+	case 3:
+		var w richWriter
+		err := f(&w)
+		return w.b.String(), err
+	case 4:
+		var b bytes.Buffer
+		bw := bufio.NewWriterSize(&b, 16)
+		err := f(bw)
+		if ferr := bw.Flush(); err == nil {
+			err = ferr
+		}
+		return b.String(), err
+	case 5:
+		pr, pw := io.Pipe()
+		done := make(chan []byte, 1)
+		go func() { b, _ := io.ReadAll(pr); done <- b }()
+		err := f(pw)
+		pw.Close()
+		return string(<-done), err
+	case 6:
+		pr, pw, perr := os.Pipe()
+		if perr != nil {
+			return renderInto(0, f)
+		}
+		done := make(chan []byte, 1)
+		go func() { b, _ := io.ReadAll(pr); pr.Close(); done <- b }()
+		err := f(pw)
+		pw.Close()
+		return string(<-done), err
+	case 7:
+		fl, ferr := os.CreateTemp(destDir, "dest-*.out")
+		if ferr != nil {
+			return renderInto(0, f)
+		}
+		err := f(fl)
+		fl.Close()
+		b, _ := os.ReadFile(fl.Name())
+		os.Remove(fl.Name())
+		return string(b), err
 	}
 }
